@@ -4,8 +4,8 @@
    depended on), and - positions being opaque to the four AST checkers - under ANY relabelling of the positions
    (blank lines, ordinary comments, gofmt), given that the suppression function answers alike.  That the @ignore scopes
    themselves follow a monotone relabelling, and local renaming, are covered by the correspondence only. *)
-From Coq Require Import List String ZArith Bool Permutation.
-From GG Require Import Base.Strs Model.Config Model.GoAst Model.Annots Model.Analyze Exec Proofs.WalkProofs Proofs.CheckerProofs Proofs.LayoutProofs.
+From Coq Require Import List String ZArith Bool Permutation Lia.
+From GG Require Import Base.Strs Model.Config Model.GoAst Model.Annots Model.Analyze Exec Proofs.WalkProofs Proofs.CheckerProofs Proofs.LayoutProofs Proofs.OpsProofs Proofs.RelayoutProofs.
 Import ListNotations.
 Local Open Scope Z_scope.
 
@@ -92,7 +92,32 @@ Proof.
   - apply (pkgo_diags_rl phi fs cur cur_name sup sup' H).
 Qed.
 
+(* END TO END.  Re-lay out a package by ANY strictly monotone map phi of positions that sends line starts to line starts
+   (every position of every file - nodes, comments, the package clause, the line table - goes through phi): gofmt
+   re-indentation and alignment, tabs <-> blanks, CRLF <-> LF, trailing blanks, another FileSet base ...  Then the whole
+   per-package analysis - annotation reader, @ignore reader with its scopes, IgnoreSet, @implements checker, the four AST
+   checkers - returns the SAME annotations and the SAME diagnostics at the relabelled positions, same codes and messages, same
+   order, and fails exactly where the original fails; no side condition on the suppression (contrast C12_positions_are_opaque).
+   Input condition, checked on every serialised package: positions are >= 1. *)
+Theorem C12_whole_analysis_relayout :
+  forall phi : Z -> Z, (forall a b, a < b -> phi a < phi b) -> phi 0 = 0 ->
+  forall cfg p all, x_pos_ok cfg p = true ->
+    x_analyze cfg (rlp phi p) all = rl_result phi (x_analyze cfg p all).
+Proof. exact analyze_relayout. Qed.
+
+(* two such maps: another FileSet base (every position moves by 1000), and every byte doubled in width *)
+Example C12_relayouts_exist :
+  let shift := fun q => if q <=? 0 then q else q + 1000 in
+  let widen := fun q => 2 * q in
+  (forall a b, a < b -> shift a < shift b) /\ shift 0 = 0 /\ (forall a b, a < b -> widen a < widen b) /\ widen 0 = 0.
+Proof.
+  cbv zeta. repeat split; try reflexivity.
+  - intros a b H. destruct (Z.leb_spec a 0), (Z.leb_spec b 0); lia.
+  - intros a b H. lia.
+Qed.
+
 Print Assumptions C12_positions_are_opaque.
+Print Assumptions C12_whole_analysis_relayout.
 Print Assumptions C12_immutable_layout.
 Print Assumptions C12_constructor_layout.
 Print Assumptions C12_key_reported_iff.
